@@ -61,19 +61,22 @@ RULE = ('cases: (a) one_form: one unit, one entry, one attribute of each standar
         '.debug_info, type-signature references (direct and through DW_FORM_indirect) in about half of the abbreviations, '
         'under each of the three .debug_types states.  In every case each type unit signature is also looked up directly '
         '(get_DIE_by_sig8, get_TU_by_sig8, each as the first query on a fresh DWARFInfo). '
+        'About one abbreviation in seven is a DW_TAG_imported_unit with DW_AT_import in ref_addr / ref4 / DW_FORM_ref / indirect '
+        'form (no supplementary file).  '
         'Abbreviation tables declare their codes in no particular order (the root\'s declaration anywhere, small codes after '
         'large ones).  Every world carries a history of by-offset accesses (get_CU_at of the last unit first / of arbitrary '
         'units in any order): all observations (iter_CUs, entries, children, parents, references) are taken on fresh objects '
         'and again on objects that first served that history. '
         'distinct = hash(kind, abstract); non-trivial = at least two entries or an attribute')
 
-STD_FORMS = [0x01, 0x03, 0x04, 0x05, 0x06, 0x07, 0x08, 0x09, 0x0a, 0x0b, 0x0c, 0x0d, 0x0e, 0x0f, 0x10, 0x11, 0x12, 0x13,
+STD_FORMS = [0x01, 0x02, 0x03, 0x04, 0x05, 0x06, 0x07, 0x08, 0x09, 0x0a, 0x0b, 0x0c, 0x0d, 0x0e, 0x0f, 0x10, 0x11, 0x12, 0x13,
              0x14, 0x15, 0x16, 0x17, 0x18, 0x19, 0x1a, 0x1b, 0x1c, 0x1d, 0x1e, 0x1f, 0x20, 0x21, 0x22, 0x23, 0x24, 0x25,
              0x26, 0x27, 0x28, 0x29, 0x2a, 0x2b, 0x2c, 0x1f20, 0x1f21]
-UNIT_REF = [0x11, 0x12, 0x13, 0x14, 0x15]
+UNIT_REF = [0x11, 0x12, 0x13, 0x14, 0x15, 0x02]     # 0x02: DW_FORM_ref (DWARF 1), 4-byte unit-relative
 STRX = [0x1a, 0x25, 0x26, 0x27, 0x28]
 ADDRX = [0x1b, 0x29, 0x2a, 0x2b, 0x2c]
 AT_SIBLING, AT_TYPE, AT_NAME = 0x01, 0x49, 0x03
+AT_IMPORT, TAG_IMPORTED_UNIT = 0x18, 0x3d
 AT_STR_OFFSETS_BASE, AT_ADDR_BASE, AT_RNGLISTS_BASE, AT_LOCLISTS_BASE = 0x72, 0x73, 0x74, 0x8c
 CONFIGS = [(le, f, a, v) for le in (1, 0) for f in (0, 1) for a in (0, 1) for v in (2, 3, 4, 5)]
 NTAB = 12          # entries per index table
@@ -279,7 +282,7 @@ def gen_table(g, nforms_cursor, with_root=True):
             names.append(AT_TYPE)
         for _ in range(nat):
             nm = rng.choice(KNOWN_ATS + UNKNOWN_ATS + [AT_TYPE, AT_NAME])
-            if nm in names or nm == AT_SIBLING:
+            if nm in names or nm == AT_SIBLING or nm == AT_IMPORT:
                 continue
             names.append(nm)
             form = STD_FORMS[nforms_cursor[0] % len(STD_FORMS)] if rng.random() < 0.7 else rng.choice(STD_FORMS)
@@ -289,8 +292,16 @@ def gen_table(g, nforms_cursor, with_root=True):
                 a['form'] = rng.choice(UNIT_REF + [0x10, 0x20, 0x16])
                 a['role'] = 'ref'
             attrs.append(a)
+        tag = rng.choice(KNOWN_TAGS + UNKNOWN_TAGS)
+        if rng.random() < 0.15 and AT_IMPORT not in names:
+            # DW_TAG_imported_unit with DW_AT_import in a section-relative or unit-relative reference form (what dwz
+            # emits for partial units of the same file); no supplementary file is configured, so the entry stays an
+            # ordinary entry of the unit
+            tag = TAG_IMPORTED_UNIT
+            attrs.append({'name': AT_IMPORT, 'form': rng.choice([0x10, 0x10, 0x13, 0x02, 0x16]), 'role': 'ref'})
+            names.append(AT_IMPORT)
         rng.shuffle(attrs)
-        decls.append({'code': code, 'tag': rng.choice(KNOWN_TAGS + UNKNOWN_TAGS), 'kids': kids, 'attrs': attrs})
+        decls.append({'code': code, 'tag': tag, 'kids': kids, 'attrs': attrs})
     if with_root:
         # the root abbreviation carries the base attributes, sometimes after attributes that need them
         base_form = lambda: rng.choice([0x17, 0x17, 0x06, 0x0f, 0x16])
